@@ -90,4 +90,12 @@ CLAIMED.update({
   "note": "sha256/ed25519/base58 are premises. The model's decision list (which checks, in which order, receiver check only when a signature is present) and both byte layouts are compared with the code on every run; ground-truth facts come from an independent re-implementation in the harness.", "design_ref": "6 C04",
  },
 })
+CLAIMED.update({
+ "C19": {
+  "engine": "purefh+coqc",
+  "technique": "Coq round-trip theorems for the wire mapping (incl. uint64/int64 timestamp arithmetic) and for the msgpack uint64 / timestamp (4/8/12-byte ext, 34-bit packing) encodings over all values; byte-exact differential of the modelled encoders against msgpack.Marshal, field-wise round-trip monitors for protobuf and msgpack on the boundary sweep",
+  "text": "C19_proto_roundtrip (all fields, all int64-nanosecond instants), C19_msgpack_uint64_roundtrip (all 2^64 values), C19_msgpack_time_roundtrip (all int64 seconds, all nanoseconds; proved with shifts as * and / by powers of two and big-endian lemmas). The harness drives the real mapping functions, proto.Marshal/Unmarshal and both msgpack libraries over the property's boundary values and compares every signed field, both signed messages and the verification result; the modelled byte encodings are compared byte-for-byte with the library output. KNOWN-FINDINGs: non-UTF-8 text cannot go on the wire; a transaction dated exactly at the epoch is refused by wire ingress.",
+  "note": "Partial: msgpack struct framing (map/str/bin headers) and protobuf's own encoding are library code exercised by the monitors, not modelled.", "design_ref": "6 C19",
+ },
+})
 NOT_YET = {}
